@@ -214,6 +214,13 @@ def _entry_name(sector, i, j):
     return f"A_{n[i]}{n[j]}"
 
 
+def _margin(ck, label, ratio):
+    """keep the largest observed residual/tolerance per monitor class (reported in the evidence)"""
+    m = ck.extra.setdefault("max_residual_over_tolerance", {})
+    if ratio > m.get(label, 0.0):
+        m[label] = round(ratio, 6)
+
+
 def _judge_rg(ck, out):
     kind, nf = out["kind"], out["nf"]
     K, heavy = KINDS[kind]
@@ -242,6 +249,8 @@ def _judge_rg(ck, out):
         for p in range(5):
             tol = _rg_tol(kind, k, p, rec)
             diff = np.abs(rec["D"][p] - rec["R"][p])
+            if tol > 0 and np.any(mask) and not (kind in ("ps", "ut")):
+                _margin(ck, f"rg/as{k}/L^{p + 1}" if p + 1 <= k else f"rg/as{k}/degree", float(diff[mask].max() / tol))
             for i in range(dim):
                 for j in range(dim):
                     if not mask[i, j]:
@@ -351,6 +360,8 @@ def _judge_sum(ck, out):
                 for p in range(5):
                     tol = _sum_tol(name, kind, k, col, p)
                     v = abs(c[p, k - 1, col])
+                    if np.isfinite(v):
+                        _margin(ck, f"{name}/as{k}/L^{p}", float(v / tol))
                     err = abs(c[p, k - 1, col] - cb[p, k - 1, col])
                     if not np.isfinite(v):
                         bad = True
@@ -461,8 +472,8 @@ def run(ck):
         ck.inconclusive(f"oracle self-check failed: {bad}")
         return
     rng = ck.rng
-    _run_items(ck, _rg_case, _gen_rg(rng, ck.n(240, 4000)), _judge_rg, "rg")
-    _run_items(ck, _sum_case, _gen_sum(rng, ck.n(12, 120)), _judge_sum, "sum")
+    _run_items(ck, _rg_case, _gen_rg(rng, ck.n(240, 12000)), _judge_rg, "rg")
+    _run_items(ck, _sum_case, _gen_sum(rng, ck.n(12, 240)), _judge_sum, "sum")
     ck.note(
         reached="RG relation in full for k=1,2 (all powers of L) and k=3 (L^3, L^2 exact; L^1 limited by ekore's approximated harmonic sums; L^0 limited by the MVV parametrisation of gamma^(2))",
         not_reached="non-logarithmic terms beyond the sum rules; heavy-quark-initiated column beyond O(as); MSbar-mass terms at O(as^3); polarized O(as^3); time-like beyond O(as)",
